@@ -413,6 +413,27 @@ def run(ctx):
     R_proto = ctx.rule("C19.header-agrees-with-exports", "each C prototype in the header agrees in arity and parameter widths with the exported function of the same name", floor=20)
 
     fl, acquires, edges, reacq = locks.analyse(st)
+
+    # a counter behind a mutex is read and advanced under ONE guard: a function that takes the same counter lock twice
+    # has a window between the two in which another thread allocates the same value
+    R_atomic = ctx.rule("C19.counter-read-modify-write-is-one-critical-section", "no function locks an integer-counter static (NEXT_HANDLE) more than once", floor=1)
+    for p_, x_ in fl.items():
+        by_static = {}
+        for site in x_.lock_sites:
+            by_static.setdefault(site[1], []).append(site)
+        for sname, sites in by_static.items():
+            sty = ""
+            for a_ in st.items.get("statics", []) if isinstance(st.items.get("statics"), list) else []:
+                if a_.get("path", "").endswith(sname):
+                    sty = a_.get("ty", "")
+            is_counter = bool(re.search(r"Mutex<(u|i)(8|16|32|64|size)>", sty)) or bool(re.search(r"NEXT|COUNTER|SEQ|_ID$", sname))
+            if not is_counter:
+                continue
+            if len(sites) > 1:
+                ctx.bad(R_atomic, "%s|%s|split-critical-section" % (p_, sname.split("::")[-1]), "%s:%s" % (x_.fn.file, sites[1][2] if len(sites[1]) > 2 else x_.fn.lo), "%s is locked %d times in this function (lines %s)" % (sname.split("::")[-1], len(sites), [s_[2] for s_ in sites if len(s_) > 2]),
+                        "the value read under the first guard can be read by another thread before the second guard advances it: two live handles get the same id — one caller's table entry silently replaces the other's")
+            else:
+                ctx.ok(R_atomic, {"fn": p_, "counter": sname.split("::")[-1]})
     for p, x in fl.items():
         ctx.saw_fn(x.fn)
         for bb, s, ln in x.lock_sites:
@@ -563,7 +584,17 @@ def run(ctx):
                             sides = [st_[2][2], st_[2][3]]
                             rs = [der.roots(s) for s in sides]
                             has_size = any(any(k == "param" and w[0] in int_params for k, w, d in r) for r in rs)
-                            shares = any(({w for k, w, d in r if k == "call"} & len_calls) or (op_local(s) in len_locals) for r, s in zip(rs, sides))
+                            # the compared quantity must be the copied length itself: the same local, or a value produced by the very
+                            # same chain of calls (`x.as_bytes_with_nul().len()` twice) — a *related* length (`x.as_bytes().len()`) is
+                            # a different number and bounds nothing
+                            def same_value(r, s_):
+                                if op_local(s_) is not None and op_local(s_) == op_local(t["a"][2]):
+                                    return True
+                                if op_local(s_) in len_locals and not {w for k, w, d in r if k == "call"}:
+                                    return True
+                                sc = {w for k, w, d in r if k == "call"}
+                                return bool(sc) and sc == len_calls
+                            shares = any(same_value(r, s_) for r, s_ in zip(rs, sides))
                             if has_size and shares:
                                 guarded = True
             if (via_min and from_size) or guarded:
